@@ -216,6 +216,24 @@ theorem ho_derived_complete_never_fails (nsrc : Nat) (evs : List Ev) (hv : Valid
   obtain ⟨B, h⟩ := uniq_runEvs_ho evs _ ⟨0, uniq_empty nsrc⟩ hv
   exact h.good
 
+/-- **No ill-formed Try, for every higher-order schedule** (audit finding 1): under `HO.Valid` (sources never completed
+    with `Try{}` / `Failure(nil)`, every constructed program `WFE`) no completed promise holds `failure .nil`, no pooled
+    task carries it, no registered callback can produce it — futures of futures, `Flatten`, `LiftM` included.  So the
+    branch on which the executable model is total but the Go task panics in `t.Failed().Get()`
+    (`C06.illformed_source_excluded`) is never taken along a valid run. -/
+theorem ho_wellformed_every_schedule (nsrc : Nat) (evs : List Ev) (hv : Valid nsrc evs) :
+    WFNet (runEvs (Net.empty nsrc) evs) :=
+  wf_runEvs evs _ (wfNet_empty nsrc) (fun ev hm => (hv ev hm).wf)
+
+theorem ho_never_failure_nil (nsrc : Nat) (evs : List Ev) (hv : Valid nsrc evs) (p : Nat) :
+    (runEvs (Net.empty nsrc) evs).status p ≠ some (.failure .nil) :=
+  fun h => (ho_wellformed_every_schedule nsrc evs hv).status p _ h rfl
+
+/-- the executable model agrees with the panic-aware reading of the Go tasks along every higher-order valid run -/
+theorem ho_go_agrees_every_schedule (nsrc : Nat) (evs : List Ev) (hv : Valid nsrc evs) :
+    runEvsGo (Net.empty nsrc) evs = some (runEvs (Net.empty nsrc) evs) :=
+  runEvsGo_eq evs _ (wfNet_empty nsrc) (fun ev hm => (hv ev hm).wf)
+
 -- the first-order theorems as corollaries -------------------------------------------------------------------------------------
 
 /-- a first-order valid run (`Spec/C06Sound.lean`) is a higher-order valid run -/
@@ -229,7 +247,7 @@ theorem valid_of_fo {nsrc : Nat} : ∀ (evs : List Ev) (n : Net), C06.Valid nsrc
     · cases ev with
       | run i => trivial
       | src p t => exact hv.1
-      | mk e => exact ⟨.val, fo_ho hv.1⟩
+      | mk e => exact ⟨⟨.val, fo_ho hv.1.1⟩, hv.1.2⟩
       | obs p id => trivial
     · exact ih _ hv.2 ev hm
 
@@ -247,7 +265,7 @@ theorem fo_built_future_sound_of_ho (nsrc : Nat) (evs evs' : List Ev) (e : FExpr
       induction l with
       | nil => intro m hm; exact hm.1
       | cons a l ih => intro m hm; exact ih (step m a) hm.2
-    exact this evs _ hv
+    exact (this evs _ hv).1
   have h := ho_built_future_sound nsrc evs evs' (embed e) r
   rw [erase_embed hfo] at h
   have := h (valid_of_fo _ _ hv) hq
@@ -266,6 +284,14 @@ def demoLiftM : TExpr .val := tLiftM demoFa 0
 theorem demoLiftM_valRefs : ValRefs demoLiftM :=
   valRefs_tLiftM _ _ (fun _ => .flatMap _ _ (.ref 1) (fun _ => .logged _ _ (.successful _)))
 
+theorem wfe_flatten (e : FExpr) (he : WFE e) : WFE (Fut.flatten e) := .flatMap _ _ he (fun _ => .ref _)
+
+theorem wfe_liftM (fa : Val → FExpr) (ta : Nat) (hfa : ∀ v, WFE (fa v)) : WFE (Fut.liftM fa ta) :=
+  wfe_flatten _ (.flatMap _ _ (.ref ta) (fun v => .successfulOf _ (hfa v)))
+
+theorem demoLiftM_wfe : WFE (erase demoLiftM) :=
+  wfe_liftM (fun v => erase (demoFa v)) 0 (fun _ => .flatMap _ _ (.ref 1) (fun _ => .logged _ _ (.successful _)))
+
 /-- what is built is the model's `Fut.liftM` of the erased user function -/
 example : erase demoLiftM = Fut.liftM (fun v => erase (demoFa v)) 0 := rfl
 
@@ -282,9 +308,9 @@ example :
   intro ev hm
   simp only [List.replicate, List.cons_append, List.nil_append, List.mem_cons, List.mem_nil_iff, or_false] at hm
   rcases hm with rfl | rfl | rfl | hm
-  · exact ⟨.val, demoLiftM, rfl⟩
-  · show (1 : Nat) < 2; decide
-  · show (0 : Nat) < 2; decide
+  · exact ⟨⟨.val, demoLiftM, rfl⟩, demoLiftM_wfe⟩
+  · exact ⟨(by decide : (1 : Nat) < 2), wfTry_success _⟩
+  · exact ⟨(by decide : (0 : Nat) < 2), wfTry_success _⟩
   · rcases hm with rfl | rfl | rfl | rfl | rfl | rfl <;> trivial
 
 /-- the other direction of exactness: a quiescent state in which the first source is still pending — the derived future is
